@@ -279,6 +279,17 @@ impl Check for C06 {
                 }
             }
         }
+        // operators between literal operands with and without the separators around them
+        for &a in &[0i64, 1, -1, 10, -10, 25, i64::MAX, -i64::MAX] {
+            for &b in &[0i64, 1, -1, 10, -10, 37, i64::MAX, -i64::MAX] {
+                for op in AR.iter().chain(CMP.iter()) {
+                    for (l, r) in [(" ", " "), ("", ""), (" ", ""), ("", " ")] {
+                        cases.push(Case::new(format!("print({}{}{}{}{})\n", a, l, op, r, b), T_REF, format!("{} {} {} written {:?}", a, op, b, format!("{}{}{}{}{}", a, l, op, r, b))));
+                        cases.push(Case::new(format!("x := {}\nxs := [x]\nprint(x{}{}{}{})\nprint(xs[0]{}{}{}{})\nprint((x){}{}{}{})\n", a, l, op, r, b, l, op, r, b, l, op, r, b), T_REF, format!("x = {}: x{}{}{}{} after a name, `]` and `)`", a, l, op, r, b)));
+                    }
+                }
+            }
+        }
         ctx.judge(std::mem::take(&mut cases), |c, r, o| self.oracle(c, r, o))?;
         // ranges
         for &a in &g {
